@@ -28,6 +28,14 @@
 (*                   the one iterated last (map.go 115-128)                *)
 (*   StripInPlace    the one-of discriminator is deleted from the caller's *)
 (*                   map instead of a clone (oneof.go 431-439)             *)
+(*   StripRestore    the discriminator is taken out of the caller's map    *)
+(*                   while the member validates and put back on success    *)
+(*                   only: a rejected value loses it                       *)
+(*   DirtyScratch    validateStruct recycles its scratch map of present    *)
+(*                   fields (package-level pool) and clears it on the      *)
+(*                   success path of the property loop only: after a value *)
+(*                   rejected because of one of its fields, the next       *)
+(*                   struct value sees phantom present fields              *)
 (*   NoStepMutex     setupStepData without initializerMutex (step.go 201)  *)
 (*   EnumEarlyReturn enum compatibility returns at the first matching key  *)
 (*                   (enum.go 53-97 before its repair)                     *)
@@ -43,8 +51,8 @@
 EXTENDS Integers, Sequences, FiniteSets, TLC
 
 CONSTANTS G, MaxCalls, Kinds, Origins,
-          AliasDefaults, LazyUnsync, CollideEither, StripInPlace, NoStepMutex, EnumEarlyReturn,
-          SubOverride
+          AliasDefaults, LazyUnsync, CollideEither, StripInPlace, StripRestore, DirtyScratch, NoStepMutex,
+          EnumEarlyReturn, SubOverride
 
 VARIABLES inst,          \* [kind, origin]
           phase,         \* "build" (single-threaded construction / ApplySelf) | "serve"
@@ -55,6 +63,8 @@ VARIABLES inst,          \* [kind, origin]
           unitCache,     \* unitCache[u] = [sorted, re, names]
           table,         \* run table of the callable step: table[r] \in {"absent","init"}
           initCount,     \* initializer invocations per run
+          scratch,       \* the recycled scratch map of validateStruct (package-level pool): the set of
+                         \* property paths it still holds when handed out; {} in the design the property demands
           mutex,         \* holder of each lock (0 = free)
           descr,         \* the self-description (derived from immutable fields)
           argmem,        \* argmem[g]: the caller-owned argument map while a call is in flight
@@ -62,7 +72,7 @@ VARIABLES inst,          \* [kind, origin]
           ncalls,
           hist           \* completed calls, in completion order
 
-vars == <<inst, phase, link, defaultsCache, cell, unitCache, table, initCount, mutex, descr, argmem,
+vars == <<inst, phase, link, defaultsCache, cell, unitCache, table, initCount, scratch, mutex, descr, argmem,
           pc, cur, loc, ncalls, hist>>
 
 \* ------------------------------------------------------------------ values
@@ -101,6 +111,15 @@ StructMapped(i) == i.kind = "objstruct" /\ i.origin # "rebuilt"
 HasMult(kind) == kind = "units"          \* "units0": a definition without multipliers (characters, percent)
 Describe(i) == [kind |-> i.kind, root |-> DeclRoot(i.kind), inner |-> DeclInner(i.kind)]
 
+\* "objdep": a struct-mapped object with pointer fields a, b, c, d (paths n, t, sa, sb of the flat map) and
+\* the rules: a conflicts with b; c is an integer of at most CMax; d is required unless b is given
+CMax == 10
+DepVerdict(present, m) ==
+    /\ ~(m["sa"] # Absent /\ m["sa"] > CMax)
+    /\ ~("n" \in present /\ "t" \in present)
+    /\ ("sb" \in present \/ "t" \in present)
+PresentIn(m) == {p \in P : m[p] # Absent}
+
 ObjKinds == {"objmap", "objstruct"}
 UnitKinds == {"units", "units0"}
 
@@ -116,6 +135,10 @@ Ops(kind) ==
            {Call("unser", Arg("empty", Empty)), Call("unser", Arg("n1", Flat(1, Absent, Absent, Absent))),
             Call("unser", Arg("s_a1", Flat(Absent, Absent, 1, Absent))), Call("unser", Arg("bad", Empty)),
             Call("ser", Arg("full", Flat(1, Absent, 1, 1)))}
+      [] kind = "objdep" ->
+           {Call(op, Arg("bad_c", Flat(Absent, 1, 100, 1))) : op \in {"valid", "ser", "unser"}}
+           \cup {Call(op, Arg("a_d", Flat(1, Absent, Absent, 1))) : op \in {"valid", "ser", "unser"}}
+           \cup {Call("valid", Arg("empty", Empty)), Call("valid", Arg("b", Flat(Absent, 1, Absent, Absent)))}
       [] kind = "mapcoll" ->
            {Call("unser", Arg("collide", Empty)), Call("unser", Arg("single", Empty)),
             Call("unser", Arg("bad", Empty))}
@@ -124,6 +147,8 @@ Ops(kind) ==
            {Call("unser", Arg("member_a", Flat(1, 1, Absent, Absent))),
             Call("unser", Arg("nodisc", Empty)), Call("ser", Arg("member_a", Flat(1, 1, Absent, Absent))),
             Call("valid", Arg("member_a", Flat(1, 1, Absent, Absent)))}
+           \* a value the selected member rejects (its property n is at most CMax)
+           \cup {Call(op, Arg("member_a_bad", Flat(100, 1, Absent, Absent))) : op \in {"valid", "ser", "unser"}}
       [] kind = "enum" ->
            {Call("compat", Arg("same", Empty)), Call("compat", Arg("extra", Empty)),
             Call("unser", Arg("member", Empty)), Call("unser", Arg("bad", Empty))}
@@ -167,8 +192,11 @@ PureSet(i, op, arg) ==
            (CASE arg.tok = "collide" -> {Res(TRUE, Empty, 1), Res(TRUE, Empty, 2), Res(FALSE, Empty, 0)}
               [] arg.tok = "single" -> {Res(TRUE, Empty, 1)}
               [] OTHER -> {Res(FALSE, Empty, 0)})
+      [] k = "objdep" ->
+           (IF DepVerdict(PresentIn(arg.m), arg.m) THEN {Res(TRUE, arg.m, 0)} ELSE {Res(FALSE, Empty, 0)})
       [] k = "oneof" ->
-           (IF arg.tok = "nodisc" THEN {Res(FALSE, Empty, 0)} ELSE {Res(TRUE, arg.m, 0)})
+           (IF arg.tok = "nodisc" \/ (arg.m["n"] # Absent /\ arg.m["n"] > CMax)
+            THEN {Res(FALSE, Empty, 0)} ELSE {Res(TRUE, arg.m, 0)})
       [] k = "enum" ->
            (CASE op = "compat" /\ arg.tok = "same" -> {Res(TRUE, Empty, 0)}
               [] op = "compat" /\ arg.tok = "extra" -> {Res(FALSE, Empty, 0)}    \* producer has a value the consumer lacks
@@ -190,7 +218,7 @@ InitialCaches(i) ==
 Init ==
     /\ \E k \in Kinds : \E o \in Origins :
           /\ (o = "global" => k \in UnitKinds)              \* package-level values: the unit definitions
-          /\ (k \in {"mapcoll", "oneof", "enum", "steps"} => o = "fresh")
+          /\ (k = "steps" => o = "fresh")
           /\ inst = [kind |-> k, origin |-> o]
     /\ phase = IF inst.origin = "rebuilt" /\ HasSub(inst.kind) THEN "build" ELSE "serve"
     /\ link = [r \in Refs |-> IF inst.origin = "rebuilt" THEN "unlinked" ELSE "inner"]
@@ -199,6 +227,7 @@ Init ==
     /\ unitCache = [u \in UnitIds |-> [sorted |-> "nil", re |-> "nil", names |-> "nil"]]
     /\ table = [r \in Runs |-> "absent"]
     /\ initCount = [r \in Runs |-> 0]
+    /\ scratch = {}
     /\ mutex = [l \in {"step", "unit", "root", "inner"} |-> 0]
     /\ descr = Describe(inst)
     /\ argmem = [g \in G |-> Empty]
@@ -266,7 +295,7 @@ Build ==
     /\ phase = "build"
     /\ link' = [r \in Refs |-> "inner"]
     /\ phase' = "serve"
-    /\ UNCHANGED <<inst, defaultsCache, cell, unitCache, table, initCount, mutex, descr, argmem, pc, cur, loc,
+    /\ UNCHANGED <<inst, defaultsCache, cell, unitCache, table, initCount, scratch, mutex, descr, argmem, pc, cur, loc,
                    ncalls, hist>>
 
 \* ------------------------------------------------------------------ a call begins
@@ -275,7 +304,8 @@ Entry(c) ==
              IF LazyUnsync THEN "P1" ELSE "PL"
       [] K \in UnitKinds /\ c.op = "fmt" -> IF LazyUnsync THEN "F1" ELSE "FL"
       [] K \in ObjKinds /\ c.op = "unser" /\ c.arg.tok # "bad" -> IF LazyUnsync THEN "D1" ELSE "DL"
-      [] K = "oneof" /\ c.op = "unser" /\ c.arg.tok # "nodisc" -> "O1"
+      [] K = "oneof" /\ c.arg.tok # "nodisc" -> "O1"
+      [] K = "objdep" /\ c.op \in {"valid", "ser"} /\ inst.origin # "rebuilt" -> "V1"   \* validateStruct
       [] K = "steps" -> IF NoStepMutex THEN "L1" ELSE "L0"
       [] OTHER -> "C1"                              \* no shared state touched: compute and return
 
@@ -286,7 +316,7 @@ Start(g) ==
           /\ loc' = [loc EXCEPT ![g] = [NoLoc EXCEPT !.ord = ord]]
           /\ argmem' = [argmem EXCEPT ![g] = c.arg.m]
           /\ Goto(g, Entry(c))
-    /\ UNCHANGED <<inst, phase, link, defaultsCache, cell, unitCache, table, initCount, mutex, descr, ncalls, hist>>
+    /\ UNCHANGED <<inst, phase, link, defaultsCache, cell, unitCache, table, initCount, scratch, mutex, descr, ncalls, hist>>
 
 \* the stateless operations: the result is a function of the call and - where the code ranges over a map -
 \* of the iteration order
@@ -303,7 +333,7 @@ Compute(g) ==
     /\ At(g, "C1")
     /\ SetLoc(g, "res", Stateless(cur[g], loc[g].ord))
     /\ Goto(g, "ret")
-    /\ UNCHANGED <<inst, phase, link, defaultsCache, cell, unitCache, table, initCount, mutex, descr, argmem, cur,
+    /\ UNCHANGED <<inst, phase, link, defaultsCache, cell, unitCache, table, initCount, scratch, mutex, descr, argmem, cur,
                    ncalls, hist>>
 
 Return(g) ==
@@ -315,23 +345,23 @@ Return(g) ==
     /\ cur' = [cur EXCEPT ![g] = NoCall]
     /\ loc' = [loc EXCEPT ![g] = NoLoc]
     /\ argmem' = [argmem EXCEPT ![g] = Empty]
-    /\ UNCHANGED <<inst, phase, link, defaultsCache, cell, unitCache, table, initCount, mutex, descr>>
+    /\ UNCHANGED <<inst, phase, link, defaultsCache, cell, unitCache, table, initCount, scratch, mutex, descr>>
 
 \* ------------------------------------------------------------------ locks (repaired designs, step mutex)
 Acquire(g, from, l, to) ==
     /\ At(g, from) /\ mutex[l] = 0
     /\ mutex' = [mutex EXCEPT ![l] = g]
     /\ Goto(g, to)
-    /\ UNCHANGED <<inst, phase, link, defaultsCache, cell, unitCache, table, initCount, descr, argmem, cur, loc,
+    /\ UNCHANGED <<inst, phase, link, defaultsCache, cell, unitCache, table, initCount, scratch, descr, argmem, cur, loc,
                    ncalls, hist>>
 Release(g, from, l, to) ==
     /\ At(g, from) /\ mutex[l] = g
     /\ mutex' = [mutex EXCEPT ![l] = 0]
     /\ Goto(g, to)
-    /\ UNCHANGED <<inst, phase, link, defaultsCache, cell, unitCache, table, initCount, descr, argmem, cur, loc,
+    /\ UNCHANGED <<inst, phase, link, defaultsCache, cell, unitCache, table, initCount, scratch, descr, argmem, cur, loc,
                    ncalls, hist>>
 
-UnitFrame == UNCHANGED <<inst, phase, link, defaultsCache, cell, table, initCount, mutex, descr, argmem, cur,
+UnitFrame == UNCHANGED <<inst, phase, link, defaultsCache, cell, table, initCount, scratch, mutex, descr, argmem, cur,
                          ncalls, hist>>
 SortedBuilt == IF HasMult(K) THEN "built" ELSE "nil"     \* no multipliers: the built slice is nil again
 
@@ -404,7 +434,7 @@ FmtDone(g) ==
     /\ Goto(g, IF LazyUnsync THEN "ret" ELSE "FU") /\ UNCHANGED unitCache /\ UnitFrame
 
 \* ------------------------------------------------------------------ objects: GetDefaults (object.go 69-74)
-ObjFrame == UNCHANGED <<inst, phase, link, unitCache, table, initCount, mutex, descr, argmem, cur, ncalls, hist>>
+ObjFrame == UNCHANGED <<inst, phase, link, unitCache, table, initCount, scratch, mutex, descr, argmem, cur, ncalls, hist>>
 FieldRead(g, label, o, ifNil, ifSet) ==
     /\ At(g, label)
     /\ Goto(g, IF defaultsCache[o].st = "unbuilt" THEN ifNil ELSE ifSet)
@@ -469,14 +499,41 @@ SubOwn(g) ==
 \* ------------------------------------------------------------------ one-of: strip the discriminator
 OneOfStrip(g) ==
     /\ At(g, "O1")
-    \* the discriminator is path "t" of the caller's map in this model
-    /\ argmem' = IF StripInPlace THEN [argmem EXCEPT ![g]["t"] = Absent] ELSE argmem
+    \* the discriminator is path "t" of the caller's map in this model; the design the property demands works
+    \* on a clone
+    /\ argmem' = IF StripInPlace \/ StripRestore THEN [argmem EXCEPT ![g]["t"] = Absent] ELSE argmem
     /\ SetLoc(g, "res", CHOOSE r \in PureSet(inst, cur[g].op, cur[g].arg) : TRUE)
+    /\ Goto(g, "O2")
+    /\ UNCHANGED <<inst, phase, link, defaultsCache, cell, unitCache, table, initCount, scratch, mutex, descr, cur, ncalls, hist>>
+\* the member has judged the stripped value
+OneOfMemberDone(g) ==
+    /\ At(g, "O2")
+    /\ argmem' = IF StripRestore /\ loc[g].res.ok THEN [argmem EXCEPT ![g]["t"] = cur[g].arg.m["t"]] ELSE argmem
     /\ Goto(g, "ret")
-    /\ UNCHANGED <<inst, phase, link, defaultsCache, cell, unitCache, table, initCount, mutex, descr, cur, ncalls, hist>>
+    /\ UNCHANGED <<inst, phase, link, defaultsCache, cell, unitCache, table, initCount, scratch, mutex, descr, cur, loc,
+                   ncalls, hist>>
+
+\* ------------------------------------------------------------------ struct-mapped object: validateStruct
+\* The set of present fields is collected in a scratch map, then the interdependency rules are judged on it.
+\* A field that violates its own constraint ends the loop early.
+ValidateStruct(g) ==
+    /\ At(g, "V1")
+    /\ LET m == cur[g].arg.m
+           got == IF DirtyScratch THEN scratch ELSE {}              \* what the handed-out map still holds
+           fieldBad == m["sa"] # Absent /\ m["sa"] > CMax
+       IN IF fieldBad
+          THEN /\ SetLoc(g, "res", Res(FALSE, Empty, 0))
+               \* early return: the fields collected before the offending one stay in the recycled map
+               /\ \E S \in SUBSET (PresentIn(m) \ {"sa"}) :
+                     scratch' = IF DirtyScratch THEN got \cup S ELSE {}
+          ELSE /\ SetLoc(g, "res", IF DepVerdict(got \cup PresentIn(m), m) THEN Res(TRUE, m, 0) ELSE Res(FALSE, Empty, 0))
+               /\ scratch' = {}
+    /\ Goto(g, "ret")
+    /\ UNCHANGED <<inst, phase, link, defaultsCache, cell, unitCache, table, initCount, mutex, descr, argmem, cur,
+                   ncalls, hist>>
 
 \* ------------------------------------------------------------------ callable step: setupStepData (step.go 200-223)
-StepFrame == UNCHANGED <<inst, phase, link, defaultsCache, cell, unitCache, mutex, descr, argmem, cur, ncalls, hist>>
+StepFrame == UNCHANGED <<inst, phase, link, defaultsCache, cell, unitCache, scratch, mutex, descr, argmem, cur, ncalls, hist>>
 RunOf(g) == cur[g].arg.tok
 StepLookup(g) ==
     /\ At(g, "L1")
@@ -511,8 +568,8 @@ Step(g) ==
     \/ Publish(g, "I3", "inner", IF LazyUnsync THEN AfterInner(g) ELSE "IU")
     \/ TopFill(g) \/ SubResolve(g) \/ SubTakeDefault(g)
     \/ SubPropagate(g, "S3a", "sa", "S3b") \/ SubPropagate(g, "S3b", "sb", "S4") \/ SubRead(g) \/ SubOwn(g)
-    \* one-of, steps
-    \/ OneOfStrip(g)
+    \* one-of, struct validation, steps
+    \/ OneOfStrip(g) \/ OneOfMemberDone(g) \/ ValidateStruct(g)
     \/ Acquire(g, "L0", "step", "L1") \/ Release(g, "L4", "step", "ret")
     \/ StepLookup(g) \/ StepInit(g) \/ StepDone(g)
 
